@@ -236,7 +236,7 @@ pub fn gen(tier: Tier, lossy: bool) -> BoxedStrategy<Scenario> {
             let dead = if kill % 3 == 0 && sc.peers.len() == 2 && sc.max_pred > 0 {
                 let t = 60 + idx(kt, (sc.ticks / 2).max(1) as usize) as u32;
                 sc.ops.push(Op::Kill { tick: t, peer: 1 });
-                sc.settle = sc.timeout_ms / 16 + 80;
+                sc.settle = 420;
                 Some(t)
             } else {
                 None
@@ -245,14 +245,14 @@ pub fn gen(tier: Tier, lossy: bool) -> BoxedStrategy<Scenario> {
                 let (from, to) = links[idx(l, links.len())];
                 let tick = match (phase, dead) {
                     (0, _) => 1 + (t % 24) as u32,                                              // handshake
-                    (1, Some(d)) => d + 130 + (t % 60) as u32,                                  // after the disconnect
+                    (1, Some(d)) => d + 260 + (t % 60) as u32,                                  // after the disconnect
                     _ => 25 + idx(t, sc.ticks.saturating_sub(26).max(1) as usize) as u32,       // running
                 };
                 // a malformed packet that carries the peer's own magic and address still proves that
                 // the peer is alive (it refreshes the liveness timer by design); while a dead peer's
                 // timeout is pending only foreign packets are injected, which must not refresh anything
                 let tick = match dead {
-                    Some(d) if kind <= 3 && tick > d.saturating_sub(2) && tick <= d + 130 => d + 131 + (t % 50) as u32,
+                    Some(d) if kind <= 3 && tick > d.saturating_sub(2) && tick <= d + 260 => d + 261 + (t % 50) as u32,
                     _ => tick,
                 };
                 let from_addr = if kind == 4 { 200 + (a.unsigned_abs() % 20) as u8 } else { from };
